@@ -37,6 +37,23 @@ def worker_main(args):
   mod = load_check(args.property)
   ctx = common.Ctx(args.property, args.tier, args.seed, args.shard,
                    args.nshards, args.budget)
+  # The process time zone is part of the environment the code runs in (naive local vs
+  # naive UTC datetimes): shards run under different zones (POSIX TZ strings, no tzdata
+  # needed); a replay runs under the zone recorded with the case.
+  tz = None
+  if args.replay:
+    try:
+      with open(args.replay) as fh:
+        tz = (json.load(fh).get('case') or {}).get('_tz')
+    except Exception:  # pylint: disable=broad-except
+      tz = None
+  if tz is None and not args.replay:
+    tz = common.TIME_ZONES[(args.shard + args.seed) % len(common.TIME_ZONES)]
+  if tz:
+    os.environ['TZ'] = tz
+    time.tzset()
+    ctx.time_zone = tz
+    ctx.count('shards_under_time_zone:' + tz)
   # driver self-test: 'k:path' makes shard k die once from SIGSEGV (path marks "already died")
   st = os.environ.get('VV_SELFTEST_KILL_SHARD', '')
   if st and st.split(':', 1)[0] == str(args.shard) and not os.path.exists(st.split(':', 1)[1]):
